@@ -150,7 +150,7 @@ def r_id(e, R):
     calls = [c for c in func_nodes(disp) if isinstance(c, ast.Call) and e.receiver_objs(disp, c, ("put", "put_nowait")) & a.callq]
     if len(calls) != 1:
         raise AnalysisError("manager dispatch: expected exactly one put on the call queue")
-    ci = calls[0].args[0] if calls[0].args else None
+    ci = e.expand(disp, calls[0].args[0]) if calls[0].args else None
     ci_cls = {v[1] for v in e.pt.ev(disp, ci.func) if v[0] == "class"} if isinstance(ci, ast.Call) else set()
     if len(ci_cls) != 1:
         raise AnalysisError("manager dispatch: call item class not identified")
@@ -199,9 +199,9 @@ def r_id(e, R):
     for q in e.reach([w.qualname]):
         hf = e.prog.funcs[q]
         for c in [x for x in func_nodes(hf) if isinstance(x, ast.Call)]:
-            if isinstance(c.func, ast.Attribute) and c.func.attr == "put" and c.args and isinstance(c.args[0], ast.Call):
-                cl = {v[1] for v in e.pt.ev(hf, c.args[0].func) if v[0] == "class" and "__init__" in e.prog.classes[v[1]].methods
-                      and len(e.prog.classes[v[1]].methods["__init__"].params) >= 4}
+            if isinstance(c.func, ast.Attribute) and c.func.attr == "put" and c.args:
+                cl = {o[2] for o in e.objs(hf, c.args[0]) if o[0] == "obj" and o[2] in e.prog.classes and "__init__" in e.prog.classes[o[2]].methods
+                      and len(e.prog.classes[o[2]].methods["__init__"].params) >= 4}
                 if cl:
                     ri_q = sorted(cl)[0]
     if ri_q is None:
